@@ -53,8 +53,12 @@ FIXED = [
     (["id", "AMOUNT"], [(1, 10), (1, 10), (3, 30), (None, None)]),
     (["Amount", "Id"], [(10, 1), (None, None), (30, 3)]),
     (["AMOUNT", "id"], [(10, 1), (10, 1), (None, None), (30, 3)]),
+    # a string column whose values differ in letter case / trailing blank only (CTE names must tell such texts apart)
+    (["a", "s"], [(1, "x"), (2, "X"), (3, "x"), (None, None), (1, "x"), (4, "X"), (5, "x "), (5, "x ")]),
+    (["a", "s"], [(1, "X"), (3, "x"), (6, "a"), (6, "A"), (None, "x")]),
 ]
-T_KV, T_VZKC, T_ZAYB, T_ID, T_IDR, T_AMT, T_AMTR = 9, 10, 11, 12, 13, 14, 15
+T_KV, T_VZKC, T_ZAYB, T_ID, T_IDR, T_AMT, T_AMTR, T_S1, T_S2 = 9, 10, 11, 12, 13, 14, 15, 16, 17
+STR_COLS = {"s", "t"}          # string-typed column names; every other column is bigint
 
 
 def _tup(x):
@@ -304,7 +308,7 @@ def build2(t, dfs, F, memo=None):
 
 
 def schema_of(names):
-    return ", ".join(f"{n} bigint" for n in names)
+    return ", ".join(f"{n} {'string' if n in STR_COLS else 'bigint'}" for n in names)
 
 
 # ---- T2: export the WITH list the implementation built (fail-closed) -------------------------------------------
@@ -660,7 +664,7 @@ def gen_tree(rnd, tables, d, shared=None):
         if shared and rnd.random() < 0.45:
             t = rnd.choice(shared)
         else:
-            t = ("in", rnd.randrange(len(tables)))
+            t = ("in", rnd.choice([i for i in range(len(tables)) if not set(tables[i][0]) & STR_COLS]))
         if rnd.random() < 0.35:
             st, _ = gen_steps(rnd, names_of(t, tables), rnd.randint(1, 2))
             t = ("ops", st, t)
@@ -782,6 +786,33 @@ def make_cases(ctx, rnd):
         cases.append(Case(tabs, ("set", call, ("in", T_IDR), ("in", T_AMT)), origin="spelling", respell={T_AMT: ["AMOUNT", "id"]}))
     cases.append(Case(tabs, ("set", "unionByNameAllow", ("in", T_ID), ("in", 1)), origin="spelling"))
     cases.append(Case(tabs, ("set", "unionByNameAllow", ("in", 1), ("in", T_ID)), origin="spelling"))
+    # operands derived from ONE DataFrame by the same steps, textually identical up to the letter case (or a trailing
+    # blank) of a string literal: their CTEs must get different names -- "same name => same content" is what the
+    # de-duplication of _add_ctes_to_expression (and the model) rely on
+    def lit_eq(v):
+        return ("bin", "Eq", ("col", "s"), ("lit", v))
+    twins = []
+    for v1, v2 in (("x", "X"), ("X", "x"), ("x", "x "), ("a", "A")):
+        twins.append(((("where", lit_eq(v1)),), (("where", lit_eq(v2)),)))
+        twins.append(((("select", ((("col", "a"), "a"), (("lit", v1), "s"))),), (("select", ((("col", "a"), "a"), (("lit", v2), "s"))),)))
+        twins.append(((("where", ("not", ("isnull", ("col", "a")))), ("select", ((("col", "a"), "a"), (("if", lit_eq(v1), ("lit", "y"), ("col", "s")), "s")))),
+                      (("where", ("not", ("isnull", ("col", "a")))), ("select", ((("col", "a"), "a"), (("if", lit_eq(v2), ("lit", "y"), ("col", "s")), "s"))))))
+        twins.append(((("where", lit_eq(v1)), ("distinct",), ("where", ("bin", "Gt", ("col", "a"), ("lit", 0)))),
+                      (("where", lit_eq(v2)), ("distinct",), ("where", ("bin", "Gt", ("col", "a"), ("lit", 0))))))
+    k_tw = 0
+    for sl, sr in twins:
+        for call in POSITIONAL + ["unionByName"]:
+            k_tw += 1
+            if quick and k_tw % 3 and call not in ("union", "exceptAll"):
+                continue
+            base = ("in", T_S1)
+            l, r = ("ops", sl, base), ("ops", sr, base)
+            t = ("set", call, l, r)
+            cases.append(Case(tabs, t, origin="literal-case"))
+            if k_tw % 2:      # at depth: another operand in between / the twin inside the right operand
+                cases.append(Case(tabs, ("set", call, ("set", "union", l, ("in", T_S2)), r), origin="literal-case"))
+            else:
+                cases.append(Case(tabs, ("set", "unionAll", ("in", T_S2), ("set", call, l, r)), post="groupcount", origin="literal-case"))
     # follow-up steps that address a column through the left operand's DataFrame object (left_df["col"]) and by name
     for call in CALLS:
         byn = call.startswith("unionByName")
